@@ -231,6 +231,7 @@ func check(c Case) (o ev.Outcome) {
 	var loaded []ymodel.Source // the model: good texts accepted so far, in order
 	isLoaded := map[string]bool{}
 	nProcess, processAfterBad, goodBetween := 0, false, false
+	nGet := 0
 	sawBad, sawGoodSinceProcess := false, false
 	var last *result
 	lastBadKind := ""
@@ -277,6 +278,71 @@ func check(c Case) (o ev.Outcome) {
 					return
 				}
 				sawBad, lastBadKind = true, badKind(src.Name)
+			case "getmodule":
+				// the one-call door: GetModule processes whatever is loaded and hands out the module's tree; it
+				// must give what a fresh set with the same accepted texts gives through the same door
+				var names []string
+				for k := range ms.Modules {
+					if !strings.Contains(k, "@") {
+						names = append(names, k)
+					}
+				}
+				if len(names) == 0 {
+					continue
+				}
+				sort.Strings(names)
+				name := names[op.Idx%len(names)]
+				one := func(x *yang.Modules) string {
+					e, errs := x.GetModule(name)
+					if len(errs) > 0 {
+						return fmt.Sprintf("errors: %q", canon.ErrStrings(errs))
+					}
+					var problems []string
+					j, _ := json.Marshal(canon.Entry(e, canon.Opts{Attrs: true}, &problems))
+					return fmt.Sprintf("%s %v", j, problems)
+				}
+				fresh := yang.NewModules()
+				for _, s := range loaded {
+					if err := fresh.Parse(s.Text, s.Name); err != nil {
+						o.OutOfClaim = "fresh load of the accepted texts failed (harness)"
+						return
+					}
+				}
+				var want string
+				var tmp ev.Outcome
+				if !ev.Guard(&tmp, "fresh GetModule", func() { want = one(fresh) }) {
+					o.OutOfClaim = "the batch run of the accepted texts itself crashes (decided by C01)"
+					return
+				}
+				got := one(ms)
+				nGet++
+				if got != want {
+					cause := "plain"
+					switch {
+					case sawBad:
+						cause = "after-failed-load/" + lastBadKind
+					case nProcess+nGet >= 2:
+						cause = "after-earlier-process"
+					}
+					k := 0
+					for k < len(got) && k < len(want) && got[k] == want[k] {
+						k++
+					}
+					lo := k - 100
+					if lo < 0 {
+						lo = 0
+					}
+					cut := func(x string) string {
+						hi := k + 160
+						if hi > len(x) {
+							hi = len(x)
+						}
+						return x[lo:hi]
+					}
+					o.Violate("equals-batch-run", "C18/getmodule-differs-from-batch/"+cause, "history %s: after op %d GetModule(%q) differs from a fresh set with the same %d accepted texts at byte %d: ...%s vs ...%s", hist, i, name, len(loaded), k, cut(got), cut(want))
+					return
+				}
+				last = nil
 			case "read":
 				// entries may only be built after Process has run on everything loaded (documented precondition)
 				if last != nil && len(last.errs) == 0 {
@@ -600,6 +666,8 @@ func gen(t *rapid.T) Case {
 			c.Ops = append(c.Ops, Op{Kind: "dup", Idx: rapid.IntRange(0, 7).Draw(t, "dup-of")})
 		case 6:
 			c.Ops = append(c.Ops, Op{Kind: "read"})
+		case 7:
+			c.Ops = append(c.Ops, Op{Kind: "getmodule", Idx: rapid.IntRange(0, 7).Draw(t, "getmodule-of")})
 		default:
 			c.Ops = append(c.Ops, Op{Kind: "process"})
 		}
@@ -612,7 +680,7 @@ func TestCheck(t *testing.T) {
 	ev.Run(t, ev.Spec[Case]{
 		ID:    "C18",
 		Level: "exploration",
-		Rule: "operation histories of 3-17 steps on one module set: load(next text of a pool of mutually consistent single-(sub)module texts from the schema model - a quarter of the pools also hold 2-3 revisions of one module (a quarter of these families without any typedef and alone in the pool; with a submodule in a third, whose include the latest revision may drop while defining the submodule's identity itself) with a base module and modules importing the family with and without revision-date, reaching its typedef, grouping and identity through a drawn selection of shapes (typedef chains, union typedefs, nested and inline unions, scoped typedefs, rpc input/output, choice, notification, augments); the family texts come first in two thirds of these pools - in a random order so that imports and includes are often not yet loaded and later revisions arrive after a processing run; a fifth of the pools consist of the wrong, cyclic and mutated texts of C01's generators, where a pool text rejected at load counts as a failed load), load(bad text: syntax error; module or submodule rejected by a later statement after an inner node with a typedef was already built; a duplicate of a loaded text), process, read (accessors and path lookups that create rpc input/output on demand). " +
+		Rule: "operation histories of 3-17 steps on one module set: load(next text of a pool of mutually consistent single-(sub)module texts from the schema model - a quarter of the pools also hold 2-3 revisions of one module (a quarter of these families without any typedef and alone in the pool; with a submodule in a third, whose include the latest revision may drop while defining the submodule's identity itself) with a base module and modules importing the family with and without revision-date, reaching its typedef, grouping and identity through a drawn selection of shapes (typedef chains, union typedefs, nested and inline unions, scoped typedefs, rpc input/output, choice, notification, augments); the family texts come first in two thirds of these pools - in a random order so that imports and includes are often not yet loaded and later revisions arrive after a processing run; a fifth of the pools consist of the wrong, cyclic and mutated texts of C01's generators, where a pool text rejected at load counts as a failed load), load(bad text: syntax error; module or submodule rejected by a later statement after an inner node with a typedef was already built; a duplicate of a loaded text), process, read (accessors and path lookups that create rpc input/output on demand), getmodule (Modules.GetModule of a loaded name, compared with the same call on a fresh set). " +
 			"Oracle (model = list of accepted good texts): after every process the error list and, when it is empty, the complete dump (trees of all modules and submodules with types, attributes and identity value lists) equal those of a fresh set into which exactly the accepted texts were loaded in the same order and processed once; two consecutive process runs give equal results; every bad load returns an error. " +
 			"Non-trivial = a process after a failed load, or a process after a load that followed an earlier process; distinct by (texts, operation sequence)",
 		Assumptions: []string{
